@@ -51,6 +51,8 @@ class Contract:
         self.assumed = False
         self.checks: Dict[str, ast.expr] = {}
         self.shards = 1
+        self.captures: List[str] = []     # nested function: variables of the enclosing function it reads / writes
+        self.nonlocals: List[str] = []    # ... those among them that it re-binds (`nonlocal x`): immutable values
 
 
 class SpecFunc:
@@ -96,6 +98,8 @@ def load_contracts(paths) -> "SpecEnv":
                     elif name == "assumed": c.assumed = ast.literal_eval(v)
                     elif name == "note": c.note = ast.literal_eval(v)
                     elif name == "shards": c.shards = ast.literal_eval(v)
+                    elif name == "captures": c.captures = ast.literal_eval(v)
+                    elif name == "nonlocals": c.nonlocals = ast.literal_eval(v)
                     elif name == "requires": c.requires = _lam(v)
                     elif name in ("ensures", "raises", "on_raise", "loops", "lemmas", "checks"):
                         if isinstance(v, ast.Dict):
@@ -120,6 +124,9 @@ class SpecEnv:
     def call_by_contract(self, ex, c: Contract, fn, args, kw, st: St, k):
         """Modular call: assert requires, fork per raises clause, havoc modifies, assume ensures."""
         env = ex.bind_params(fn, args, kw, st)
+        for cap in c.captures:                      # a nested function sees the caller's (= the enclosing scope's) variables
+            if cap not in st.env: raise Unsupported(f"captured variable {cap} is not bound at the call of {fn.name}")
+            if cap not in env: env[cap] = st.env[cap]
         site = f"{ex.top_name}.call[{c.qual.split('fggs.', 1)[-1]}]"
         if c.requires is not None:
             pre = PureEval(ex, st, env).truth(c.requires)
@@ -140,6 +147,12 @@ class SpecEnv:
             st_n = st_n.assume(z3.Not(cond))
         st_h = self.havoc_modifies(ex, c, env, st_n)
         env2 = dict(env)
+        if c.nonlocals:                              # re-bound variables of the enclosing scope: fresh values, old() = before
+            env2["__old_prims__"] = {n: env[n] for n in c.nonlocals}
+            for n in c.nonlocals:
+                nv, st_h = fresh_value(st_h, env[n].ty, "nl." + n)
+                env2[n] = nv
+                st_h = st_h.bind(n, nv)
         res = SNone()
         if c.returns and c.returns != "none":
             res, st_h = fresh_value(st_h, S.parse_type(c.returns), "ret." + fn.name)
@@ -150,6 +163,7 @@ class SpecEnv:
 
     def havoc_modifies(self, ex, c: Contract, env, st: St) -> St:
         for path in c.modifies:
+            if path in c.nonlocals: continue         # handled by the caller (re-binding, not mutation)
             st = havoc_path(ex, path, env, st)
         if c.allocates:
             new_alive = S.fresh("alive", st.alive.sort())
@@ -414,7 +428,20 @@ class PureEval:
                 return self.quant(e.args[0], ast.literal_eval(e.args[1]), n == "forall")
             if n == "old":
                 if self.old_st is None: raise Unsupported("spec: old() without an entry state")
-                return PureEval(self.ex, self.old_st, self.env, self.old_st, bound=self.bound).ev(e.args[0])
+                env_o = self.env
+                if "__old_prims__" in env_o:
+                    env_o = dict(env_o); env_o.update(env_o["__old_prims__"])
+                return PureEval(self.ex, self.old_st, env_o, self.old_st, bound=self.bound).ev(e.args[0])
+            if self.specenv and n in self.specenv.funcs:
+                # user-defined spec function: a container passed by name stays a reference, so that old(<param>)
+                # inside the function body means the container in the entry state (not a snapshot of the current one)
+                sf = self.specenv.funcs[n]
+                fargs = [self.env[a.id] if isinstance(a, ast.Name) and isinstance(self.env.get(a.id), SRef) else self.ev(a)
+                         for a in e.args]
+                env_f = dict(zip(sf.params, fargs))
+                for keep in ("__entry__",):        # (not __old_prims__: it is keyed by the caller's names)
+                    if keep in self.env: env_f[keep] = self.env[keep]
+                return self.sub(env=env_f).ev(sf.body)
             args = [self.ev(a) for a in e.args]
             if n == "implies": return B(z3.Implies(ops.truth(self.st, args[0]), ops.truth(self.st, args[1])))
             if n == "iff": return B(ops.truth(self.st, args[0]) == ops.truth(self.st, args[1]))
